@@ -22,7 +22,7 @@ func (c16) NumCases(tier string) int {
 	if tier == "thorough" {
 		return 60_000
 	}
-	return 2_400
+	return 420
 }
 
 func (c16) Describe() CheckInfo {
